@@ -229,6 +229,14 @@ def run_block(c, NP, NL, KMAX, predict_type, mssdc_jac, all_to_done, nsweeps, in
             cur = S_.levels[li].uend if name == 'uend' else getattr(S_.levels[li], name)[m]
             if cur is None or id(cur) != oid or not np.array_equal(np.asarray(cur), val):
                 viol.append(('finished-step-changed', (slot, li, name, m)))
+    # (2b) chaining inside the block: what a finished step holds as its initial value (finest level) is exactly the end value its left neighbour
+    #      finished with
+    for slot in sorted(STATE['snap']):
+        if slot - 1 in STATE['snap']:
+            mine = [v for (li, name, m, oid, v) in STATE['snap'][slot] if li == 0 and name == 'u' and m == 0]
+            left = [v for (li, name, m, oid, v) in STATE['snap'][slot - 1] if li == 0 and name == 'uend']
+            if mine and left and not np.array_equal(mine[0], left[0]):
+                viol.append(('chaining', (slot, str(mine[0].tolist())[:60], str(left[0].tolist())[:60])))
     # (3) all running steps share a stage at every controller call
     for ev in STATE['comm']:
         if ev[0] == 'stage' and len(set(ev[1])) > 1:
